@@ -6,7 +6,7 @@ From ACB Require Import Base.Outcome Base.QcExtra Base.Arith Model.Tx Model.Ledg
      Model.DeltaList Model.App Model.Summary Model.SummaryObs Proofs.SummaryProps.
 From Coq Require Import Sorted.
 From ACB Require Import Proofs.C15Full Proofs.SortLayout Proofs.C10Scan Proofs.C10Sim Proofs.C10Roundtrip
-     Proofs.C10Ranges Proofs.C10Cut Proofs.C10Window Proofs.C10Classes.
+     Proofs.C10Ranges Proofs.C10Cut Proofs.C10Window Proofs.C10Classes Proofs.C10Holdings Proofs.C10Entry Proofs.C10Examples.
 Import ListNotations.
 
 (* ------------------------------------------------------------------ the full statement
@@ -499,3 +499,141 @@ Proof.
               rt_dsT rt_K' H1 H2 H3 H4 H5 H6 H7 H8 H9 H10 H11 H11' H12 H13 H14 H15 H16) as (dsG & dsK' & E & _).
   exists dsG, dsK'. split; [exact E|]. vm_compute. repeat split.
 Qed.
+
+(* ==================================================================== extension 2: the model's entry points
+   (Proofs/C10Holdings.v, C10Entry.v, C10Examples.v; design.d/C10-roundtrip.md) *)
+
+(* ------------------------------------------------------------------ (9) the holdings at the cut
+   After the summarised rows the ledger remembers, of every (well-formed)
+   affiliate, the post status of its last reported row; the purchases that
+   last_idxs / sort_afis / per_affiliate generate are built from exactly those
+   rows; affiliates without a purchase hold nothing and - outside
+   K_zero_balance_acb - have no cost base. *)
+Theorem C10_holdings_at_cut : forall regof dsP rest dflt st1,
+  (forall af, obs st1 af = obs_after (af_id af) (obs st0 af) dsP) ->
+  Forall C04Inv.row_ok dsP -> Forall (gooddelta regof) dsP ->
+  (forall x, In x (afs_of dsP) -> let post := d_post (nth (snd x) (dsP ++ rest) dflt) in
+       s_sh post = 0%Qc -> forall c, s_acb post = Some c -> c = 0%Qc) ->
+  let hs := hs_of (dsP ++ rest) dflt (afs_of dsP) in
+  NoDup (map (fun h : hold_row => af_id (fst (fst h))) hs)
+  /\ Forall (fun h : hold_row => holding_ok (fst (fst h)) (snd (fst h))) hs
+  /\ Forall (fun h : hold_row => exists d, In d dsP /\ snd h = d_sd d) hs
+  /\ (forall x, In x (afs_of dsP) -> let d := nth (snd x) (dsP ++ rest) dflt in
+        In d dsP /\ ((0 < s_sh (d_post d))%Qc -> holding_ok (fst x) (d_post d)))
+  /\ (forall af, goodaf regof af -> obs st1 af = held_obs hs af (0%Qc, if af_reg af then None else Some 0%Qc)).
+Proof. exact holdings_at_cut. Qed.
+Check C10_holdings_at_cut : forall regof dsP rest dflt st1,
+  (forall af, obs st1 af = obs_after (af_id af) (obs st0 af) dsP) ->
+  Forall C04Inv.row_ok dsP -> Forall (gooddelta regof) dsP ->
+  (forall x, In x (afs_of dsP) -> let post := d_post (nth (snd x) (dsP ++ rest) dflt) in
+       s_sh post = 0%Qc -> forall c, s_acb post = Some c -> c = 0%Qc) ->
+  let hs := hs_of (dsP ++ rest) dflt (afs_of dsP) in
+  NoDup (map (fun h : hold_row => af_id (fst (fst h))) hs)
+  /\ Forall (fun h : hold_row => holding_ok (fst (fst h)) (snd (fst h))) hs
+  /\ Forall (fun h : hold_row => exists d, In d dsP /\ snd h = d_sd d) hs
+  /\ (forall x, In x (afs_of dsP) -> let d := nth (snd x) (dsP ++ rest) dflt in
+        In d dsP /\ ((0 < s_sh (d_post d))%Qc -> holding_ok (fst x) (d_post d)))
+  /\ (forall af, goodaf regof af -> obs st1 af = held_obs hs af (0%Qc, if af_reg af then None else Some 0%Qc)).
+Print Assumptions C10_holdings_at_cut.
+
+(* ------------------------------------------------------------------ (10) C10_roundtrip_simple_single_security
+   THE ROUND TRIP AT THE MODEL'S ENTRY POINTS, simple mode, any date.
+   rows = the input rows numbered in input order (as the program numbers them);
+   every row: not entered for all affiliates, of one security [sec], with an
+   affiliate whose registered flag is a function of its id ([rowQ]); rows
+   well-formed (valid_tx: what Tx::try_from guarantees); no sale carries a zero
+   superficial-loss cell (see C10_zero_sfl_cell_witness: needed); the summary
+   is not changed by the CSV layer (through_csv: it is changed only when every
+   summary row is of the default affiliate and a re-emitted row is a split).
+   Then, from history_ok, outside K_summary_buy_in_window and
+   K_zero_balance_acb: make_summary succeeds, (summary ++ rows after the date)
+   is accepted and reports every later row as the full history does - strict
+   comparison and observational comparison alike. *)
+Theorem C10_roundtrip_simple_single_security : forall regof sec latest rows0,
+  let rows := number_from 0 rows0 in
+  Forall (rowQ regof sec) rows0 -> forallb valid_tx rows0 = true -> K_zero_sfl_cell rows0 = false ->
+  history_ok exact rows = true ->
+  K_summary_buy_in_window exact latest false rows = false ->
+  K_zero_balance_acb exact latest rows = false ->
+  (forall sums, make_summary exact latest (fst (sec_run exact rows)) false = Ok sums -> through_csv sums = sums) ->
+  roundtrip_ok exact latest false rows = true /\ roundtrip_obs_ok exact latest false rows = true.
+Proof. exact roundtrip_single_security_exec. Qed.
+Check C10_roundtrip_simple_single_security : forall regof sec latest rows0,
+  let rows := number_from 0 rows0 in
+  Forall (rowQ regof sec) rows0 -> forallb valid_tx rows0 = true -> K_zero_sfl_cell rows0 = false ->
+  history_ok exact rows = true ->
+  K_summary_buy_in_window exact latest false rows = false ->
+  K_zero_balance_acb exact latest rows = false ->
+  (forall sums, make_summary exact latest (fst (sec_run exact rows)) false = Ok sums -> through_csv sums = sums) ->
+  roundtrip_ok exact latest false rows = true /\ roundtrip_obs_ok exact latest false rows = true.
+Print Assumptions C10_roundtrip_simple_single_security.
+
+(* ------------------------------------------------------------------ the zero cell has to be excluded: a fifth class
+   K_zero_sfl_cell.  A sale whose superficial-loss cell is a forced zero is
+   not superficial whatever the rows around it; the full history computes its
+   value from an acquisition of an affiliate that holds nothing at the date (no
+   summary row), the re-run from what is left - here a tiny later purchase -
+   gets a loss that rounds to 0.00 and PANICS (util/math.rs:93, the panic of
+   finding C05 eff-cent-zero, masked in the full history).  Outside the four
+   other classes; exact and dec; replayed on the real code (design.d/C10-roundtrip.md). *)
+Theorem C10_zero_sfl_cell_witness :
+  history_ok exact wit5 = true /\ history_ok dec wit5 = true
+  /\ roundtrip_ok exact wit5_date false wit5 = false /\ roundtrip_obs_ok exact wit5_date false wit5 = false
+  /\ roundtrip_obs_ok dec wit5_date false wit5 = false
+  /\ K_summary_buy_in_window exact wit5_date false wit5 = false
+  /\ K_zero_balance_acb exact wit5_date wit5 = false
+  /\ K_idle_split_expansion exact wit5_date wit5 = false
+  /\ K_zero_sfl_cell wit5 = true
+  /\ Forall (rowQ no_reg 0) wit5 /\ forallb valid_tx wit5 = true.
+Proof. exact wit5_fails. Qed.
+Check C10_zero_sfl_cell_witness :
+  history_ok exact wit5 = true /\ history_ok dec wit5 = true
+  /\ roundtrip_ok exact wit5_date false wit5 = false /\ roundtrip_obs_ok exact wit5_date false wit5 = false
+  /\ roundtrip_obs_ok dec wit5_date false wit5 = false
+  /\ K_summary_buy_in_window exact wit5_date false wit5 = false
+  /\ K_zero_balance_acb exact wit5_date wit5 = false
+  /\ K_idle_split_expansion exact wit5_date wit5 = false
+  /\ K_zero_sfl_cell wit5 = true
+  /\ Forall (rowQ no_reg 0) wit5 /\ forallb valid_tx wit5 = true.
+Print Assumptions C10_zero_sfl_cell_witness.
+
+(* C10_outside_known2_full is therefore false as well; with the fifth class: *)
+Theorem C10_outside_known2_full_refuted : ~ C10_outside_known2_full.
+Proof.
+  intros H. specialize (H wit5_date false wit5).
+  destruct wit5_fails as (H1 & _ & _ & H4 & _ & H6 & H7 & _).
+  assert (H5 : K_annual_sell_in_window exact wit5_date false wit5 = false) by (vm_compute; reflexivity).
+  rewrite (H H1 H6 H5 H7) in H4. discriminate H4.
+Qed.
+Check C10_outside_known2_full_refuted : ~ C10_outside_known2_full.
+Print Assumptions C10_outside_known2_full_refuted.
+
+Definition C10_outside_known3_full : Prop := forall latest annual rows0,
+  let rows := number_from 0 rows0 in
+  history_ok exact rows = true -> forallb valid_tx rows = true ->
+  K_summary_buy_in_window exact latest annual rows = false ->
+  K_annual_sell_in_window exact latest annual rows = false ->
+  K_zero_balance_acb exact latest rows = false ->
+  K_zero_sfl_cell rows = false ->
+  roundtrip_obs_ok exact latest annual rows = true.
+
+(* ------------------------------------------------------------------ non-vacuity of (10)
+   the history of C10_roundtrip_simple_partial_nonvacuous (re-emitted rows, a
+   later superficial loss, a later plain loss: 4 later rows compared), and a
+   history in which an affiliate sold everything before the date *)
+Example C10_roundtrip_simple_single_security_nonvacuous :
+  (number_from 0 rt_rows = rt_rows
+   /\ Forall (rowQ no_reg 0) rt_rows /\ forallb valid_tx rt_rows = true /\ K_zero_sfl_cell rt_rows = false
+   /\ history_ok exact rt_rows = true
+   /\ K_summary_buy_in_window exact rt_date false rt_rows = false
+   /\ K_zero_balance_acb exact rt_date rt_rows = false
+   /\ (forall sums, make_summary exact rt_date (fst (sec_run exact rt_rows)) false = Ok sums -> through_csv sums = sums)
+   /\ length (later_deltas rt_date (fst (sec_run exact rt_rows))) = 4%nat)
+  /\ (number_from 0 idle_rows = idle_rows
+      /\ Forall (rowQ no_reg 0) idle_rows /\ forallb valid_tx idle_rows = true /\ K_zero_sfl_cell idle_rows = false
+      /\ history_ok exact idle_rows = true
+      /\ K_summary_buy_in_window exact idle_date false idle_rows = false
+      /\ K_zero_balance_acb exact idle_date idle_rows = false
+      /\ (forall sums, make_summary exact idle_date (fst (sec_run exact idle_rows)) false = Ok sums -> through_csv sums = sums)
+      /\ existsb is_sfl_delta (later_deltas idle_date (fst (sec_run exact idle_rows))) = true).
+Proof. split; [exact rt_entry_hypotheses | exact idle_entry_hypotheses]. Qed.
